@@ -20,6 +20,15 @@
 //!     n      native call: `parked_scope(|| yield)`
 //!     s, s2  `stop_the_world(rt, op)`, the operation writes the heap once / twice (`store H`)
 //!     c<j>   spawn: `DoraThread::new(rt, Parked)`, `add_thread`, OS spawn; child: `init_current_thread`, `unpark`
+//!   h_c04 dfs <scenario> <preemption bound> <spurious budget> <cap>
+//!        size / verdicts of one bounded DFS (for choosing the caps of the built-in scenarios)
+//!
+//! Trace: every shim event after `add_main_thread` (the model's initial state), object ids mapped to roles
+//! (see lean/Drivers/C04.lean); `start` / `exit` / `join` of the scheduler are dropped, `spawn` is kept.
+//! `safepoint_slow` is `extern "C"`, so a thread inside it must never be unwound (the process would abort):
+//! the call is bracketed with `shim::set_no_unwind`, and a failing assert below it is turned into
+//! `Status::Panic` by the panic hook (`shim::fail_current_thread`) — such threads are leaked, which is why
+//! exploration stops after MAX_VIOLATING_SCHEDULES and the process leaves through `exit`.
 //! Every random choice derives from VERIF_SEED.
 use c04_realstw::runtime::{clear_runtime, get_runtime, set_runtime, Runtime};
 use c04_realstw::safepoint::{safepoint_slow, stop_the_world};
@@ -679,18 +688,18 @@ fn scenarios(tier: &str) -> Vec<(&'static str, usize, usize, usize)> {
     }
     let mut v = quick;
     v.extend(vec![
-        ("c1.t.s.t/t.p.t.p", 3, 1, 40000),
-        ("c1.s.t/n.t.n", 3, 1, 40000),
-        ("c1.s.t/s.t", 3, 1, 40000),
-        ("c1.c2.p/s.t/t", 3, 0, 40000),
-        ("c1.c2/-/s.p", 3, 1, 40000),
-        ("c1.c2.n/-/s", 2, 0, 40000),
-        ("c1.c2.n/-/s", 3, 1, 40000),
-        ("c1.c2.s/p.n.t/t.p.s", 2, 1, 40000),
-        ("c1.c2.c3.s/p/n/s", 1, 0, 40000),
-        ("c1.c2.c3/p/n/s", 2, 0, 40000),
-        ("c1.s.n/c2.p.s/c3.n/s.p", 2, 0, 40000),
-        ("c1.c2.c3.p/s.t.p/n.s/p.n.t", 2, 1, 40000),
+        ("c1.t.s.t/t.p.t.p", 3, 1, 25000),
+        ("c1.s.t/n.t.n", 3, 1, 25000),
+        ("c1.s.t/s.t", 3, 1, 25000),
+        ("c1.c2.p/s.t/t", 3, 0, 25000),
+        ("c1.c2/-/s.p", 3, 1, 25000),
+        ("c1.c2.n/-/s", 2, 0, 25000),
+        ("c1.c2.n/-/s", 3, 1, 25000),
+        ("c1.c2.s/p.n.t/t.p.s", 2, 1, 25000),
+        ("c1.c2.c3.s/p/n/s", 1, 0, 25000),
+        ("c1.c2.c3/p/n/s", 2, 0, 25000),
+        ("c1.s.n/c2.p.s/c3.n/s.p", 2, 0, 25000),
+        ("c1.c2.c3.p/s.t.p/n.s/p.n.t", 2, 1, 25000),
     ]);
     v
 }
